@@ -8,6 +8,7 @@ specifications (MC_P2J) and explores the machine specification on the same point
 """
 import glob
 import os
+import subprocess
 import time
 
 from common import *
@@ -497,6 +498,17 @@ def judge(prop, tier):
         "binding_selftest": selftest,
         "exhaustive": True,
     }
+    if prop == "C02":
+        bs = builder_stage(tier)
+        rep.coverage["builder_histories"] = {k: v for k, v in bs.items() if k != "failures"}
+        rep.coverage["states"] += bs["model_states"] + bs["judge_states"]
+        rep.coverage["transitions"] += bs["model_transitions"]
+        rep.coverage["traces_validated_against_impl"] += bs["histories"]
+        for f in bs["failures"]:
+            rep.violation("C02:builder:%s:%s" % (f["why"], f["ops"]),
+                          "C02/builder history [%s]: %s; reference %s, real %s" % (f["ops"], f["why"], f["spec"], f["real"]),
+                          {"property": "C02", "why": "builder:" + f["why"], "history": f["ops"], "reference": f["spec"], "real": f["real"],
+                           "grammar_text": BUILDER_GRAMMAR, "input": [], "entry": 0})
     if prop == "C08":
         ref = reference_stage(rep, [b for b in sel if not (b.feat["pred"] or b.feat["assert"])], cap)
         rep.coverage["reference_runs"] = ref
@@ -836,4 +848,77 @@ def free_stage(sel, cap):
         out["behaviours"] += len(done)
         if done != rec:
             out["enumeration_mismatch"][b.name] = {"only_model": len(done - rec), "only_real": len(rec - done)}
+    return out
+
+
+BUILDER_GRAMMAR = "token A W;\nskip W;\nstart s;\ns: x y;\nx: A;\ny: A;\n"
+
+
+def builder_stage(tier):
+    """Pipeline P3 (C02, histories): TLC explores every protocol-conforming history of tree-builder
+    operations up to the bound against the ghost reference tree (spec/CstBuilder.tla), every
+    history is replayed into the REAL CstData, and TLC judges the recorded vectors."""
+    ensure_harness()
+    wd = cache_dir("p3b")
+    res = p2gen.build_runner("builder", BUILDER_GRAMMAR, wd)
+    if not res["ok"]:
+        raise ToolError("builder runner not built: %s" % res)
+    cfg = "MC_CstBuilder.cfg" if tier == "quick" else "MC_CstBuilder_Thorough.cfg"
+    mc = run_tlc("MC_CstBuilder", cfg, workers=6, timeout=3000, xmx="8g", job="p3-builder", slow_start=True)
+    if not mc.ok:
+        log(mc.raw[-2000:])
+        raise ToolError("CstBuilder model check failed: %s %s" % (mc.violated, mc.error))
+    f03 = run_tlc("MC_CstBuilder", "MC_CstBuilder_F03.cfg", workers=2, timeout=600, job="p3-builder-f03")
+    hs = [h for h in mc.payload("H") if h]
+
+    def opline(h):
+        out = []
+        for op in h["ops"]:
+            if op[0] == "tok":
+                out.append("tok:%s:%d" % (op[1], 1 if op[2] else 0))
+            elif op[0] in ("close", "mark", "openbefore"):
+                out.append("%s:%s" % (op[0], op[1]))
+            else:
+                out.append(op[0])
+        return " ".join(out)
+    hfile = os.path.join(wd, "histories.txt")
+    with open(hfile, "w") as fh:
+        for h in hs:
+            fh.write(opline(h) + "\n")
+    r = subprocess.run([res["bin"], "--builder", hfile], stdout=subprocess.PIPE, stderr=subprocess.PIPE, text=True, timeout=600)
+    real = [json.loads(l) for l in r.stdout.splitlines() if l.startswith("{")]
+    if len(real) != len(hs):
+        raise ToolError("builder replay returned %d results for %d histories (rc=%s)" % (len(real), len(hs), r.returncode))
+    recs = [{"spec": {"nodes": h["nodes"], "tc": h["tc"], "nsl": h["nsl"]},
+             "real": {"nodes": x["nodes"], "tc": x["tc"], "nsl": x["nsl"], "panic": x["panic"]}} for h, x in zip(hs, real)]
+    import copy
+    st = copy.deepcopy(recs[len(recs) // 2])
+    st["real"]["nsl"] += 1
+    recs.append(st)
+    nshard = 4
+    out = {"histories": len(hs), "model_states": mc.distinct, "model_transitions": mc.generated,
+           "f03_protocol_violation_found_by_tlc": f03.violated == "Refines", "judge_states": 0, "failures": []}
+
+    def shard(k):
+        part = recs[k::nshard]
+        rf = os.path.join(wd, "BR-%d.ndjson" % k)
+        write_ndjson(rf, part)
+        return k, run_tlc("Trace_CstBuilder", "Trace_CstBuilder.cfg", env={"RFILE": rf}, workers=2, timeout=1800,
+                          xmx="4g", job="p3-judge-%d" % k, slow_start=True)
+    st_seen = False
+    for k, jr in parallel(shard, range(nshard), jobs=4):
+        if not jr.ok:
+            log(jr.raw[-1500:])
+            raise ToolError("builder judge failed: %s" % jr.error)
+        out["judge_states"] += jr.distinct
+        for v in jr.payload("V"):
+            if not v:
+                continue
+            gi = k + (v["i"] - 1) * nshard
+            if gi == len(recs) - 1:
+                st_seen = True
+                continue
+            out["failures"].append({"why": v["why"], "ops": opline(hs[gi]), "spec": recs[gi]["spec"], "real": recs[gi]["real"]})
+    if not st_seen:
+        raise ToolError("builder binding self-test failed")
     return out
